@@ -210,7 +210,7 @@ def size_setters(chk, shapes, cls_name, replay_factory=None):
                 chk.prove(f"{tag}:rescale_argument_positive[{t}]", fkey, p.pc, sp.Gt(s, 0), replay=rp("nonpositive"))
                 chk.prove_eq(f"{tag}:scale_equation[{t}]", fkey, p.pc, s**degree(name) * G0, V_SYM, replay=rp("readback"))
         if not n_ok:
-            chk.errors.append(f"{tag}: no returning path")
+            chk.record(f"{tag}:has_an_accepting_path", fkey, "unknown", "path-enumeration", detail="no path of the setter returns under the contract's pre-state", model={})
         # NaN target
         for p in chk.explore(fkey, lambda: run(float("nan")), assumptions=[sp.Gt(G0, 0)]):
             kind, exc, before, after, scales = p.value
